@@ -54,7 +54,9 @@ CONFIGS = {
     'real': None,
 }
 KINDS = ['codepoint', 'html-ascii', 'uca-default', 'uca-lang-available', 'uca-lang-unavailable-fallback-yes',
-         'uca-lang-unavailable-fallback-no', 'locale-name-available', 'locale-name-unavailable', 'malformed']
+         'uca-lang-unavailable-fallback-no', 'locale-name-available', 'locale-name-unavailable', 'malformed',
+         # names that the real setlocale() refuses with ValueError / UnicodeEncodeError instead of locale.Error
+         'locale-name-nul', 'uca-lang-surrogate']
 FUNCS = ['compare', 'contains', 'starts-with', 'ends-with', 'substring-before', 'substring-after',
          'distinct-values', 'deep-equal', 'max', 'min', 'index-of', 'sort', 'collation-key',
          # operands that make the function fail while the collation is active (error path inside the manager)
@@ -127,6 +129,10 @@ class FakeLocale:
         name = self._name(loc)
         if name == '':
             name = 'C'
+        if isinstance(name, str) and '\x00' in name:
+            raise ValueError('embedded null character')        # what CPython's setlocale() does
+        if isinstance(name, str):
+            name.encode('utf-8')                               # UnicodeEncodeError for a lone surrogate, as CPython
         if not isinstance(name, str) or name not in self.installed:
             raise real_locale.Error('unsupported locale setting')
         self.current[category] = name
@@ -233,6 +239,10 @@ def collation_uri(kind, installed):
         return 'xx_XX.UTF-8'
     if kind == 'malformed':
         return 'http://[bad collation uri'
+    if kind == 'locale-name-nul':
+        return 'en_US\x00.UTF-8'
+    if kind == 'uca-lang-surrogate':
+        return '%s?lang=de\ud800;fallback=no' % UCA
     raise ValueError(kind)
 
 
